@@ -383,6 +383,56 @@ def build_structures(ctx):
         else:
             sal.append(a)
     out.append(("alias-altloc-dna", sal, {"alias": True}))
+    # 6c. hydrogen-carrying inputs: built with hydrogens, an NMR file of the repo, pdb2pqr's own
+    # --pdb-output re-fed (charged termini written, neutral termini asked next)
+    hp = B.build_peptide(["ILE", "SER", "HIS", "ASP", "LYS", "CYS", "TYR", "GLY"], chain="A", hydrogens=True)
+    out.append(("hyd-built", hp, {"hyd": True}))
+    try:
+        t1 = (core.REPO / "tests" / "data" / "1A1P.pdb").read_text()
+        out.append(("hyd-1A1P", atoms_from_pdb(t1), {"hyd": True, "text": t1}))
+    except OSError:
+        pass
+    try:
+        import tempfile
+
+        with tempfile.TemporaryDirectory(prefix="pv_c03_refeed_") as wd:
+            hp0 = B.build_peptide(["THR", "ASN", "CYS", "GLU", "ARG", "PRO", "TRP"], chain="A")
+            rr = B.run_pdb2pqr(B.to_pdb(hp0), ["--ff=PARSE", f"--pdb-output={wd}/o.pdb"], workdir=wd)
+            if rr["exc"] is None:
+                t2 = open(f"{wd}/o.pdb").read()
+                out.append(("hyd-refed", atoms_from_pdb(t2), {"hyd": True, "text": t2}))
+    except Exception:  # noqa: BLE001
+        pass
+    # 6d. nucleotides with partial phosphates and mixed phosphate spellings
+    for rna in (False, True):
+        s0 = B.build_strand("ACGU" if rna else "ACGT", chain="B", rna=rna, phosphate_names="OP")
+        v = []
+        for a in s0:
+            if a.resseq == 2 and a.name == "OP2":
+                continue  # truncated phosphate
+            if a.resseq == 3 and a.name == "OP2":
+                a = replace(a, name="O2P")  # mixed spelling inside one residue
+            if a.resseq == 4 and a.name == "C5'":
+                a = replace(a, name="C5*")
+            v.append(a)
+        out.append((f"na-partial-{'rna' if rna else 'dna'}", v, {"phos": "OP", "missing": True}))
+    s1 = [a for a in B.build_strand("ACGT", chain="B", phosphate_names="O_P") if not (a.resseq == 3 and a.name == "O1P")]
+    out.append(("na-partial-O_P", s1, {"phos": "O_P", "missing": True}))
+    # 6e. layouts: residue numbering, short chains, undefined residues, waters under the polymer's chain ID
+    base8 = B.build_peptide(["SER", "LEU", "ASN", "GLY", "THR", "LYS"], chain="A", start=-2)
+    out.append(("layout-negnum", base8, {}))
+    out.append(("layout-3digit-high", [replace(a, resseq=990 + a.resseq) for a in base8], {}))
+    one = B.build_peptide(["ALA"], chain="B", origin=(0.0, 30.0, 0.0))
+    two = B.build_peptide(["SER", "GLY"], chain="C", origin=(0.0, 60.0, 0.0))
+    out.append(("layout-short-chains", B.build_peptide(["VAL", "ASN", "GLY"], chain="A") + one + two, {}))
+    for posn, lab in ((1, "first"), (3, "middle"), (6, "last")):
+        un = B.build_peptide(["ALA", "SER", "ALA", "GLN", "GLY", "ALA"], chain="A")
+        un = [replace(a, resname="DAL", record="HETATM") if a.resseq == posn else a for a in un]
+        out.append((f"layout-undefined-{lab}", un, {"undefined": True}))
+    pw = B.build_peptide(["SER", "HIS", "GLY", "TYR"], chain="A")
+    ww = [replace(a, chain="A", resseq=100 + a.resseq) for a in B.waters(3, around=pw, chain="W", rng=nrng)]
+    out.append(("layout-water-samechain-after", pw + ww, {}))
+    out.append(("layout-water-samechain-before", ww + pw, {}))
     # 7. random side-chain deletions (whole side chains too) on a 20-residue peptide, one unknown atom
     for k in range(3):
         seq = aas[:]
@@ -493,6 +543,25 @@ def hydroxyl_with_donors(target, oname, bname, ndonors, nrng, water=False, dist=
     return placed
 
 
+def atoms_from_pdb(text):
+    """AtomRec list of the first model of a PDB text (fixed columns)."""
+    from harness import builder as B
+
+    out = []
+    for ln in text.splitlines():
+        if ln.startswith("ENDMDL"):
+            break
+        if not ln.startswith(("ATOM", "HETATM")):
+            continue
+        try:
+            out.append(B.AtomRec(record=ln[:6].strip(), serial=int(ln[6:11]), name=ln[12:16].strip(), altloc=ln[16].strip(),
+                                 resname=ln[17:20].strip(), chain=ln[21].strip(), resseq=int(ln[22:26]), icode=ln[26].strip(),
+                                 x=float(ln[30:38]), y=float(ln[38:46]), z=float(ln[46:54]), element=ln[76:78].strip()))
+        except ValueError:
+            continue
+    return out
+
+
 OPTION_SETS = [
     [],
     ["--nodebump"],
@@ -510,7 +579,7 @@ class RunResult:
     pass
 
 
-def run_structure(ctx, atoms, opts, ff, veto=None, monitor=True, phrng=None):
+def run_structure(ctx, atoms, opts, ff, veto=None, monitor=True, phrng=None, text=None, extra=()):
     """One monitored pdb2pqr run. Returns dict."""
     import c03_table as G
     from harness import builder as B
@@ -564,7 +633,9 @@ def run_structure(ctx, atoms, opts, ff, veto=None, monitor=True, phrng=None):
             o3 = hopt.Optimize.__dict__["get_hbond_angle"]
             hopt.Optimize.get_hbond_angle = staticmethod(lambda a1, a2, a3: 5.0)
             saved.append((hopt.Optimize, "get_hbond_angle", o3))
-    text = B.to_pdb(atoms)
+    args += list(extra)
+    if text is None:
+        text = B.to_pdb(atoms)
     mon = G.Monitor()
     rmon = RepairMonitor()
     try:
@@ -601,6 +672,7 @@ class RepairMonitor:
         import contextlib
 
         from pdb2pqr import aa, biomolecule
+        from pdb2pqr import na as na_
 
         mon = self
 
@@ -621,7 +693,7 @@ class RepairMonitor:
             def snap(bio):
                 out = []
                 for res in bio.residues:
-                    if not isinstance(res, aa.Amino):
+                    if not isinstance(res, (aa.Amino, na_.Nucleic)):
                         continue
                     ref = res.reference
                     near = {}
@@ -631,7 +703,7 @@ class RepairMonitor:
                         except KeyError:
                             pass
                     out.append({"res": res, "key": str(res), "before": [a.name for a in res.atoms], "ref": list(ref.map.keys()), "near": near,
-                                "pn": res.peptide_n is not None, "pc": res.peptide_c is not None,
+                                "pn": getattr(res, "peptide_n", None) is not None, "pc": getattr(res, "peptide_c", None) is not None,
                                 "ssb": bool(isinstance(res, aa.CYS) and res.ss_bonded)})
                 return out
 
@@ -1332,6 +1404,28 @@ def outer_join(ctx, tag, atoms, meta, r, opts, ff):
     for key, ps in written.items():
         if key not in final:
             fail({"site": "output", "atom_class": atom_class(key[2]), "condition": "line-without-final-atom"}, f"PQR line for {key} has no atom in the final model")
+    # 2b. judged from the RETURNED model alone: (i) an atom that a patch applied to the residue removes
+    # (and no later patch adds back) must be gone; (ii) no atom twice under two spellings
+    defs_ = B.definitions()
+    for res in bio.residues:
+        patches = list(getattr(res, "patches", []) or [])
+        names = [a.name for a in res.atoms]
+        removed = set()
+        for pn in patches:
+            pt = defs_.patches.get(pn)
+            if pt is None:
+                continue
+            removed -= set(pt.map.keys())
+            removed |= set(pt.remove)
+        for n in sorted(removed & set(names)):
+            fail({"site": "final-model", "kind": "patch-removed-atom-present", "atom": n, "patch": [p for p in patches if n in defs_.patches[p].remove][-1]},
+                 f"{res} still holds {n}, which its patch list {patches} removes")
+        alt = dict(_alt_table(res.name))
+        alt.update({"OP1": "O1P", "OP2": "O2P"})
+        canon = [alt.get(n, n) for n in names]
+        for n in sorted({c for c in canon if canon.count(c) > 1}):
+            fail({"site": "final-model", "kind": "same-atom-under-two-spellings", "atom": n},
+                 f"{res} holds {[x for x in names if alt.get(x, x) == n]}: one atom under several names")
     # 3. fully parameterised residues carry exactly the topology's atom set
     if clean or assign_only:
         return nfail
@@ -1355,6 +1449,12 @@ def outer_join(ctx, tag, atoms, meta, r, opts, ff):
         wnames = []
         for a in res.atoms:
             wnames += [a.name] * len(written.get((res.chain_id, str(res.res_seq) + res.ins_code, a.name), []))
+        if tpl[:1] in ("D", "R") and len(tpl) == 2:
+            # a nucleotide keeps whichever spelling each phosphate oxygen came with; rebuilt ones get the template's
+            ph = {"OP1": "O1P", "OP2": "O2P"}
+            wnames = [ph.get(n, n) for n in wnames]
+            req = {ph.get(n, n) for n in req}
+            opt = {ph.get(n, n) for n in opt}
         seen = set()
         for n in wnames:
             if n in seen:
@@ -1378,6 +1478,38 @@ def outer_join(ctx, tag, atoms, meta, r, opts, ff):
 # --------------------------------------------------------------------------
 
 
+def entry_point_runs(ctx):
+    """The same input through main_driver (builder), pdb2pqr.main.run_pdb2pqr(list) and the
+    command line: identical ATOM/HETATM lines."""
+    import subprocess
+
+    from harness import builder as B
+    from pdb2pqr import main as pmain
+
+    atoms = B.build_peptide(["SER", "ASN", "HIS", "GLY"], chain="A")
+    text = B.to_pdb(atoms)
+    wd = ctx.scratch_dir()
+    r0 = B.run_pdb2pqr(text, ["--ff=AMBER", "--keep-chain"], workdir=wd)
+    ref = [l for l in (r0["pqr_text"] or "").splitlines() if l.startswith(("ATOM", "HETATM"))]
+    (wd / "ep.pdb").write_text(text)
+    outs = {}
+    try:
+        pmain.run_pdb2pqr(["--ff=AMBER", "--keep-chain", str(wd / "ep.pdb"), str(wd / "ep1.pqr")])
+        outs["run_pdb2pqr"] = (wd / "ep1.pqr").read_text()
+    except BaseException as e:  # noqa: BLE001
+        outs["run_pdb2pqr"] = f"EXC {e!r}"
+    env = dict(__import__("os").environ, PYTHONPATH=str(core.REPO))
+    p = subprocess.run([sys.executable, "-c", "from pdb2pqr.main import main; main()", "--ff=AMBER", "--keep-chain", "--log-level=ERROR", str(wd / "ep.pdb"), str(wd / "ep2.pqr")],
+                       capture_output=True, text=True, env=env, timeout=120)
+    outs["cli"] = (wd / "ep2.pqr").read_text() if (wd / "ep2.pqr").exists() else f"EXC rc={p.returncode} {p.stderr[-200:]}"
+    for k, v in outs.items():
+        ctx.evaluated(("entry", k), True)
+        got = [l for l in v.splitlines() if l.startswith(("ATOM", "HETATM"))]
+        if got != ref:
+            ctx.fail({"site": "entry-point", "entry": k, "condition": "atom-lines-differ-from-main_driver"},
+                     f"{k}: {len(got)} atom lines vs {len(ref)} through main_driver", {"args": ["--ff=AMBER", "--keep-chain"], "pdb": text, "tag": "entry-point"})
+
+
 def run(ctx):
     import c03_table as G
 
@@ -1390,6 +1522,14 @@ def run(ctx):
         "run joined per atom identity; non-trivial = run finished and >= 1 residue was checked against its topology; "
         "distinct by (structure tag, options, force field, veto)"
     )
+    # 0. shared tables my generated files import (FF_<ff>.v from gen/all.py, E2ENames.v): regenerate if absent
+    import subprocess
+
+    if any(not (core.GEN / f"FF_{f}.v").exists() for f in ["AMBER", "CHARMM", "PARSE", "PEOEPB", "SWANSON", "TYL06"]) or not (core.GEN / "names.json").exists():
+        subprocess.run([sys.executable, str(core.VERIF / "gen" / "all.py"), "--only", "ff_tables"], capture_output=True, text=True,
+                       env={**__import__("os").environ, "VERIF_REPO": str(core.REPO)}, timeout=600)
+    if not (core.GEN / "E2ENames.v").exists():
+        subprocess.run([sys.executable, str(core.VERIF / "gen" / "e2e_names.py")], capture_output=True, text=True, timeout=120)
     # 0. regenerate the table
     gen_ok = True
     try:
@@ -1446,6 +1586,19 @@ def run(ctx):
     for i, (tag, atoms, meta) in enumerate(structs):
         for j, opts in enumerate(OPTION_SETS):
             full = tag.startswith(("all20", "variants", "carboxyl", "extra", "fliprich")) or tag in ("missing-heavy",)
+            if tag.startswith("hyd-"):
+                if opts not in ([], ["--neutraln", "--neutralc"], ["PH"], ["--noopt"], ["--assign-only"]):
+                    continue
+                plan.append((tag, atoms, meta, opts, "PARSE" if opts == ["--neutraln", "--neutralc"] else FFS[(i + j) % 6], None))
+                continue
+            if tag.startswith("na-partial"):
+                if opts in ([], ["--nodebump"], ["--clean"], ["--noopt"]):
+                    plan.append((tag, atoms, meta, opts, ["AMBER", "CHARMM"][j % 2], None))
+                continue
+            if tag.startswith("layout-"):
+                if opts in ([], ["--clean"], ["--drop-water"], ["--noopt"]):
+                    plan.append((tag, atoms, meta, opts, FFS[(i + j) % 6], None))
+                continue
             if tag.startswith("alias-altloc") and opts not in ([], ["--clean"], ["--assign-only"], ["--noopt"]):
                 continue
             if tag.startswith("alias-altloc") and (not ctx.thorough):
@@ -1514,6 +1667,7 @@ def run(ctx):
     terms, owners = [], []
     rterms, rseen = [], set()
     e2e_pending = []
+    first_run = {}
     t_search = ctx.elapsed()  # the proof stage may have waited for the shared build lock
     budget = 150 if not ctx.thorough else 1500
     import random
@@ -1526,7 +1680,16 @@ def run(ctx):
         if vr is not None:
             vr.free = veto % 2 == 1  # odd walks: every is_hbond answer is a coin flip (angles always pass)
         phr = random.Random(f"ph:{ctx.seed}:{tag}")
-        r = run_structure(ctx, atoms, opts, ff, veto=vr, phrng=phr)
+        # options that must not matter for which atoms exist / are written (drawn by seed)
+        noise = []
+        if veto is None and ctx.rng.random() < 0.35:
+            noise = [ctx.rng.choice(["--whitespace", "--include-header", "--log-level=DEBUG", f"--pdb-output={ctx.scratch_dir()}/noise.pdb"])]
+            ctx.count("noise-option:" + noise[0].split("=")[0])
+        r = run_structure(ctx, atoms, opts, ff, veto=vr, phrng=phr, text=meta.get("text"), extra=noise)
+        if not first_run:
+            first_run.update(pqr=r["pqr_text"], extra=noise)
+        if meta.get("hyd") and "PH" in opts:
+            r["skip_e2e"] = True  # remove_hydrogens of the propka path is not a stage of the pipeline model
         key = (tag.split(":")[0], tuple(opts), ff, veto)
         ctx.count("opts:" + (" ".join(opts) or "default"))
         ctx.count("ff:" + ff)
@@ -1555,7 +1718,7 @@ def run(ctx):
     # end to end per residue: pipeline model vs final names / PQR names / unassigned / logged
     eterms, eseen, etotal = [], set(), 0
     for atoms_, r_, opts_, ff_, tag_ in e2e_pending:
-        if r_.get("walk"):
+        if r_.get("walk") or r_.get("skip_e2e"):
             continue  # driven walks are compared by the acceptor; their label lists are scripted
         try:
             lst = e2e_terms(atoms_, r_, opts_, ff_)
@@ -1591,6 +1754,14 @@ def run(ctx):
             if o.strip() != exp.strip():
                 ctx.cov["correspondence_disagreements"] += 1
                 corr_broken = True
+                after = case.get("after") or []
+                al_ = {"OP1": "O1P", "OP2": "O2P"}
+                can_ = [al_.get(x, x) for x in after]
+                dup_ = sorted({x for x in can_ if can_.count(x) > 1})
+                if dup_:
+                    ctx.fail({"site": case["what"], "kind": "same-atom-under-two-spellings", "atom": dup_[0]},
+                             f"{case['residue']} after {case['what']}: {[x for x in after if al_.get(x, x) in dup_]} (one atom rebuilt next to its alias)",
+                             dict(case, signature="repair-alias"))
                 if len([b for b in ctx.broken if "repair" in b["what"] or "add_hydrogens" in b["what"]]) < 4:
                     ctx.broke("correspondence-broken", f"Model.NameProtocol.{case['what']} vs Biomolecule.{case['what']} (one residue)", f"model={o!r} real={exp!r}", case)
     except core.CoqEvalError as e:
